@@ -814,8 +814,22 @@ package bluemonday
 //@ func css.recursiveCheck
 //@   requires forall i int :: 0 <= i && i < len(funcs) ==> funcs[i] != nil
 //@   modifies nothing
-//@   decreases len(value)
 //@   ensures[C18] result ==> rcOK(elems(value), off(value), len(value), funcs)
+//@   loop 0 "for i := n - 1; i >= 0; i-- {"
+//@     invariant n == len(value) && n > 0 && len(splits) == n + 1 && fresh(splits) && 0 - 1 <= i && i < n
+//@     invariant[C18] forall m int :: i < m && m < n && splits[m] ==> rcOK(elems(value), off(value) + m, n - m, funcs)
+//@     invariant[C18] forall m int :: 0 <= m && m <= i ==> !splits[m]
+//@     decreases i + 1
+//@   loop 1 "for j := i; j < n; j++ {"
+//@     invariant n == len(value) && n > 0 && len(splits) == n + 1 && fresh(splits) && 0 <= i && i < n && i <= j && j <= n
+//@     invariant[C18] forall m int :: i < m && m < n && splits[m] ==> rcOK(elems(value), off(value) + m, n - m, funcs)
+//@     invariant[C18] splits[i] ==> rcOK(elems(value), off(value) + i, n - i, funcs)
+//@     decreases n - j
+//@   loop 2 "for _, f := range funcs {"
+//@     invariant n == len(value) && n > 0 && len(splits) == n + 1 && fresh(splits) && 0 <= i && i < n && i <= j && j < n && rangeindex < len(funcs)
+//@     invariant[C18] forall m int :: i < m && m < n && splits[m] ==> rcOK(elems(value), off(value) + m, n - m, funcs)
+//@     invariant[C18] splits[i] ==> rcOK(elems(value), off(value) + i, n - i, funcs)
+//@     invariant[C18] j + 1 == n || (splits[j+1] && rcOK(elems(value), off(value) + j + 1, n - j - 1, funcs))
 
 //@ func sanitise_ugc.main
 //@   at-call (*bluemonday.Policy).Sanitize(p, s)
